@@ -280,6 +280,22 @@ def _worker(part, tier, is_canary):
             chk("net.cell([0,2]).scope('global').comp(slice(3,None))", net.cell([0, 2]).scope("global").comp(slice(3, None)), [3, 4, 5, 9, 10])
             chk("net.cell(2).scope('global').comp(slice(9,11))", net.cell(2).scope("global").comp(slice(9, 11)), [9, 10])
             chk("net.cell([0,2]).select(nodes=[4,5,9,10])", net.cell([0, 2]).select(nodes=[4, 5, 9, 10]), [4, 5, 9, 10])
+            # selections listed in NON-ASCENDING order denote the same set; local indices stay dense ranks by global index,
+            # and the chain continues from them (seeded change C11_b: order-of-appearance counting)
+            uns = [7, 2, 5, 0, 8, 10, 9, 4]
+            chk(f"net.select(nodes={uns})", net.select(nodes=uns), uns)
+            for l, i in (("comp", 0), ("comp", 1), ("branch", 0), ("branch", 1), ("cell", 1), ("cell", [0, 2])):
+                vo = denote([c for c in U if c.g in uns], l, i, "local")
+                chk(f"net.select(nodes={uns}).{l}({i})", getattr(net.select(nodes=uns), l)(i), [c.g for c in vo])
+            vo = denote(denote([c for c in U if c.g in uns], "cell", 0, "local"), "comp", 0, "local")
+            chk(f"net.select(nodes={uns}).cell(0).comp(0)", net.select(nodes=uns).cell(0).comp(0), [c.g for c in vo])
+            n1 = template()
+            n1.select(nodes=[5, 3, 10, 9, 1, 0]).add_to_group("unsorted")
+            chk("group made from an unsorted selection", n1.unsorted, [0, 1, 3, 5, 9, 10])
+            vo = denote([c for c in U if c.g in (0, 1, 3, 5, 9, 10)], "comp", 1, "local")
+            chk("group made from an unsorted selection .comp(1)", n1.unsorted.comp(1), [c.g for c in vo])
+            chk("net.cell(0).select(nodes=[5,1,3,0])", net.cell(0).select(nodes=[5, 1, 3, 0]), [0, 1, 3, 5])
+            chk("net.cell([2,0]).branch([2,0]).comp([1,0])", net.cell([2, 0]).branch([2, 0]).comp([1, 0]), [c.g for c in denote(denote(denote(list(U), "cell", [2, 0], "local"), "branch", [2, 0], "local"), "comp", [1, 0], "local")])
             try:        # selecting nodes that are not in view is refused
                 net.cell([0, 2]).select(nodes=slice(4, 11))
                 bad.append("net.cell([0,2]).select(nodes=slice(4,11)) returned a view although nodes 6,7,8 are not in view")
@@ -332,7 +348,8 @@ def _worker(part, tier, is_canary):
             # mutating calls through a view change those rows and no others
             import jax.numpy as jnp
             from jaxley.channels import K
-            views = [("cell(1)", lambda n: n.cell(1), [6, 7, 8]), ("cell(0).branch([0,2])", lambda n: n.cell(0).branch([0, 2]), [0, 1, 3, 4, 5]),
+            views = [("select(nodes=[8,2,5,0]).comp(0)", lambda n: n.select(nodes=[8, 2, 5, 0]).comp(0), [0, 2, 5, 8]), ("select(nodes=[7,4,3,6]).comp(1)", lambda n: n.select(nodes=[7, 4, 3, 6]).comp(1), [4]),
+                     ("cell(1)", lambda n: n.cell(1), [6, 7, 8]), ("cell(0).branch([0,2])", lambda n: n.cell(0).branch([0, 2]), [0, 1, 3, 4, 5]),
                      ("cell([0,2]).branch(0).comp(1)", lambda n: n.cell([0, 2]).branch(0).comp(1), [1, 10]), ("scope('global').branch(4)", lambda n: n.scope("global").branch(4), [7, 8]),
                      ("grp", lambda n: n.grp, GRP_COMPS), ("cell(0).loc(0.9)", lambda n: n.cell(0).loc(0.9), [1, 2, 5])]
             for vname, vf, rows in views:
@@ -431,7 +448,7 @@ def main(tier):
                 ck.add(r)
     for (p, can), oc in zip(CANARIES, outs[len(PARTS):]):
         ref = oc[0] == "ok" and not oc[1]["error"] and any(r["status"] != "proved" for r in oc[1]["results"])
-        ck.canaries.append((f"{can[0]}: {can[2][:50]!r} -> {can[3][:50]!r}", ref))
+        ck.canary(f"{can[0]}: {can[2][:50]!r} -> {can[3][:50]!r}", ref, oc)
     ck.bounded = {"evaluations": evals, "distinct_nontrivial": cases, "exhaustive": tier != "quick", "refusals_for_empty_denotations": refusals,
                   "rule": "network of 3 cells with branches [2,1,3], [1,2], [2] compartments, 6 synapses of 2 types, HH on parts, one group; all chains cell/branch/comp of depth 1-3 over 13 index forms per level "
                           "(quick: every 5th depth-3 chain) in local scope, global scope and with a scope switch after the first selection; groups, channel views, select, loc on a grid, boolean masks, lazy indexing, iteration; "
